@@ -52,6 +52,11 @@ CHECKS = {
             "For ALL smooth fields (free 1st/2nd-order jets) and ALL points of the domain z3 decides curl grad = 0, div curl = 0, zero-padding, and equality of the cylindrical/spherical gradient, divergence and curl with the Cartesian ones in the local orthonormal basis.",
             "Trusted: z3 nlsat, SymPy's diff/chain rule, the textbook transformation and rotation matrices in checks/c12.py. Singular points (r = 0, sin(phi) = 0) and phi = pi/2 (code divides by tan) are outside.",
             "3.12"),
+    "C15": ("S", "other",
+            "real conversion tables executed on symbolic points/components; sqrt/atan2/sin/cos translated with definitional axioms; identities decided by z3 (QF_NRA) over each system's whole domain",
+            "For ALL points of each system's domain and ALL vector components z3 decides: scalar round trips (6 pairs), direct = via third system (6 triples), M M^T = I, det M = 1, reverse = inverse, base vectors = textbook local basis = normalised position derivatives (Lame coefficients), convert_point / convert_vector preserve Cartesian position / components.",
+            "Trusted: z3 nlsat, the sound trig/atan2 axioms of vlib/s2smt.py, the textbook position maps and bases in checks/c15.py. Polar axis, origin and angles outside the principal ranges are outside.",
+            "3.15"),
 }
 
 NOT_APPLICABLE = {
